@@ -73,8 +73,21 @@ class TStrSeq(Ty):
 
 
 class TRef(Ty):
-    def __init__(self, cls):
+    """reference to an object of class cls or of a subclass; exact=True: of class cls itself (what a constructor call
+    returns, or what a container is declared to hold) - members are then not dispatched over subclasses"""
+
+    def __init__(self, cls, exact=False):
         self.cls = cls
+        self.exact = exact
+
+    def __eq__(self, other):
+        return type(other) is TRef and self.cls == other.cls
+
+    def __hash__(self):
+        return hash(("TRef", self.cls))
+
+    def __repr__(self):
+        return f"TRef({self.cls!r})"
 
     def sort(self):
         return smt.Int
